@@ -2,6 +2,7 @@ package main
 
 func controlsC05() []Control {
 	return []Control{
+		{Name: "busted seats are not re-evaluated by the rotation", Expect: "R6", Mutate: replaceIn("(*seatManager).rotatePositions", "if sp != nil && !sp.Active() {", "if sp != nil && !sp.Active() && sp.HasChips {", 0)},
 		{Name: "add-on refreshes has-chips from the bankroll before the credit", Expect: "R4", Mutate: replaceIn("(*tableEngine).PlayerRedeemChips", "te.sm.UpdatePlayerHasChips(playerState.PlayerID, true)", "te.sm.UpdatePlayerHasChips(playerState.PlayerID, playerState.Bankroll > 0)", 0)},
 		{Name: "dealt-in flag copied from IsIn", Expect: "R1", Mutate: replaceIn("(*tableEngine).openGame", "player.IsParticipated = active", "player.IsParticipated = active || player.IsIn", 0)},
 		{Name: "dealt-in flags computed before the rotation", Expect: "R1", Mutate: replaceIn("(*tableEngine).openGame", "\t// Step 4: 計算座位\n", "\tfor i := 0; i < len(cloneTable.State.PlayerStates); i++ {\n\t\tplayer := cloneTable.State.PlayerStates[i]\n\t\tactive, err := te.sm.IsPlayerActive(player.PlayerID)\n\t\tif err != nil {\n\t\t\treturn oldTable, err\n\t\t}\n\t\tplayer.IsParticipated = active\n\t}\n\t// Step 4: 計算座位\n", 0)},
